@@ -265,6 +265,9 @@ class Env:
             if isinstance(da, dict):
                 self.shared((call.get("share", i), "vec"), lambda: da)
             self.call_kwargs(i, call)
+        if call["fn"] == "vec2d":
+            self.shared((call.get("share", i), "vec2d"), lambda: {self.nm(a): self.arrays[call["comps"][a]] for a in call["order"]})
+            self.call_kwargs(i, call)
 
     # -- execution
     def run_call(self, i, call):
@@ -313,6 +316,19 @@ class Env:
                 guf = as_grid_ufunc(signature=sig, boundary_width=bw)(window_sum(widths))
                 return guf(g, *das, axis=axis, **kw)
             return g.apply_as_grid_ufunc(window_sum(widths), *das, axis=axis, signature=sig, boundary_width=bw, **kw)
+        if fn == "vec2d":
+            # the two-component convenience wrappers
+            vec = self.shared((call.get("share", i), "vec2d"), lambda: {nm(a): self.arrays[call["comps"][a]] for a in call["order"]})
+            res = getattr(g, call["op"] + "_2d_vector")(vec, **self.call_kwargs(i, call))
+            return [res[nm(a)] for a in sorted(call["order"])]
+        if fn == "interp_like":
+            return g.interp_like(self.arrays[call["da"]], self.arrays[call["like"]])
+        if fn == "gridop":
+            # a pre-defined 1-D grid ufunc called directly
+            from xgcm import gridops
+
+            uf = getattr(gridops, f"{call['op']}_{call['frm']}_to_{call['to_pos']}")
+            return uf(g, self.arrays[call["da"]], axis=[(nm(call["axis"]),)], **self.call_kwargs(i, call))
         if fn == "equivalent":
             from xgcm.grid_ufunc import _GridUFuncSignature
 
